@@ -32,6 +32,35 @@ Theorem C02_roundtrip_fresh : forall S p k t v b,
 Proof. exact gen_roundtrip_fresh. Qed.
 Print Assumptions C02_roundtrip_fresh.
 
+(* ---- the other two ways the emitted code reads and writes (corollaries: Proofs/RoundCorP.v, AsyncGenP.v) ---- *)
+From PVGen Require Import GenUnsafe GenAsync Proofs.RoundCorP Proofs.AsyncGenP.
+
+(* unchecked binary codec (composed with C11_gen_write_eq / C11_gen_read_eq): the unchecked writer, given a window with room
+   for the message, produces the checked writer's segments; the unchecked reader on those bytes followed by ARBITRARY bytes [r]
+   returns the value with the IDL defaults filled in and stops exactly at [r] *)
+Theorem C02_roundtrip_unchecked : forall S k zc t v,
+  wf_schema S = true -> has_type S t v = true ->
+  (match k with BContig => True | BLinked z => z = zc end) ->
+  exists ss, enc_ty S PBinary k t v w0 = Ok (ss, w0) /\
+    (forall cap, Z.of_nat (length (flat ss)) <= cap ->
+       exists u', uenc_ty S zc t v (match k with BContig => uw_contig cap | BLinked _ => uw_linked cap end) = Ok (ss, u')) /\
+    forall fuel r, (vsize (to_tval S t v) <= fuel)%nat ->
+      exists K u', (forall fk, (K <= fk)%nat -> gen_udecode false S fk fuel t (mkU (flat ss ++ r) 0) = Ok (fill_defaults S t v, u')) /\
+                   urest u' = r.
+Proof. exact roundtrip_unchecked. Qed.
+Print Assumptions C02_roundtrip_unchecked.
+
+(* asynchronous decoder, every protocol (= C12_gen_roundtrip): what the emitted encoder wrote is decoded by decode_async to the
+   value with the IDL defaults filled in, pulling exactly the bytes of the message and nothing of what follows on the stream *)
+Theorem C02_roundtrip_async : forall S p k t v,
+  wf_schema S = true -> has_type S t v = true ->
+  forall c, w_pend c = None ->
+  exists ss, enc_ty S p k t v c = Ok (ss, c) /\
+    forall fuel r rcx, (vsize (to_tval S t v) <= fuel)%nat -> idle rcx -> Z.of_nat (length (flat ss ++ r)) < 2 ^ 63 ->
+      gen_decode_async S p fuel t (mkS (flat ss ++ r) rcx) = Ok (fill_defaults S t v, mkS r rcx).
+Proof. exact gen_async_roundtrip. Qed.
+Print Assumptions C02_roundtrip_async.
+
 (* the encoder is the value interpreter's writer on the self-describing tree of the value (so every theorem of
    the runtime level about write_val -- buffer independence, size, skipping by an old reader -- applies to the
    emitted encoder) *)
